@@ -370,6 +370,42 @@ def check(ctx: Ctx) -> list[RuleResult]:
             r5.ok({"mutation": norm(n)[:60], "on": "a fresh copy"})
         else:
             r5.fail(f"{mk.short}:mutates-extra:{norm(n)[:40]}", mk.loc(n), f"`{norm(n)[:60]}` can act on the caller's own mapping (Packet._validate passes self.__dict__): logging a packet then changes the packet (e.g. removes _frame, which Frame.__eq__ and __repr__ read)")
+    # reader/writer agreement on the record's fields: whatever makeRecord reads from the mapping / the record (beyond logging's own
+    # LogRecord attributes) must be an instance attribute the packet really has, else the read silently finds nothing (the log
+    # line would e.g. carry the wall clock instead of the packet's timestamp)
+    import logging as _logging
+
+    std_attrs = set(_logging.LogRecord("", 0, "", 0, "", (), None).__dict__) | {"message", "asctime"}  # the interpreter's own class, not repository code
+    pkt_attrs: set[str] = set()
+    for qn in ("ramses_tx.packet.Packet.__init__", "ramses_tx.frame.Frame.__init__"):
+        for n in own_nodes(repo.func(qn).node):
+            if isinstance(n, ast.Attribute) and isinstance(n.value, ast.Name) and n.value.id == "self" and isinstance(n.ctx, ast.Store):
+                pkt_attrs.add(n.attr)
+    reads: list[tuple[ast.AST, str]] = []
+    made = {"frame"}  # keys makeRecord itself creates
+    for n in own_nodes(mk.node):
+        if isinstance(n, ast.Subscript) and isinstance(n.value, ast.Name) and n.value.id == "extra" and isinstance(n.slice, ast.Constant) and isinstance(n.slice.value, str):
+            if isinstance(n.ctx, ast.Store):
+                made.add(n.slice.value)
+            else:
+                reads.append((n, n.slice.value))
+        elif isinstance(n, ast.Call) and isinstance(n.func, ast.Attribute) and isinstance(n.func.value, ast.Name) and n.func.value.id == "extra" and n.func.attr in ("pop", "get") and n.args and isinstance(n.args[0], ast.Constant):
+            reads.append((n, n.args[0].value))
+        elif isinstance(n, ast.Call) and isinstance(n.func, ast.Name) and n.func.id in ("hasattr", "getattr") and len(n.args) >= 2 and norm(n.args[0]) == "rv" and isinstance(n.args[1], ast.Constant):
+            reads.append((n, n.args[1].value))
+        elif isinstance(n, ast.Attribute) and isinstance(n.value, ast.Name) and n.value.id == "rv" and isinstance(n.ctx, ast.Load):
+            reads.append((n, n.attr))
+    seen_keys: set[str] = set()
+    for n, key in reads:
+        if key in std_attrs or key in made or key in seen_keys:
+            continue
+        seen_keys.add(key)
+        r5.instances += 1
+        r5.nontrivial += 1
+        if key in pkt_attrs or not passes_dict:
+            r5.ok({"record_field": key, "provided_by": "Packet/Frame.__init__"})
+        else:
+            r5.fail(f"{mk.short}:reads-missing-field:{key}", mk.loc(n), f"_Logger.makeRecord reads `{key}` from the record, but a packet's __dict__ (what Packet._validate passes as `extra`) has no such attribute (it has {sorted(a for a in pkt_attrs if key.strip('_') in a)[:3]}): the branch never runs")
     if not muts:
         r5.instances += 1
         r5.ok({"mutations_of_extra": 0})
